@@ -447,7 +447,7 @@ DEPTHS = {
 }
 
 
-def fixed_histories():
+def fixed_histories(consumer=None):
     """Attachment shapes that would make most prefixes of a free history ill-formed: a text
     attachment whose chunks split one character (every chunk arrives before the final status)."""
     u1 = ev(file_name="u", file_bytes=b"caf\xc3", mime_type="text/plain; charset=utf8")
@@ -461,12 +461,20 @@ def fixed_histories():
         out.append([("startTestRun",), ("status", u1), ("status", u2), ("status", ev(test_status=final)), ("stopTestRun",)])
         out.append([("startTestRun",), ("status", ev(test_status="inprogress")), ("status", u1), ("status", u2), ("stopTestRun",)])
     out.append([("startTestRun",), ("status", r1), ("status", r2), ("status", ev(test_status="skip")), ("stopTestRun",)])
+    if consumer != "StreamToExtendedDecorator":
+        # test enumeration: an 'exists' final that carries tags and a file chunk itself - as a
+        # test's only event, after an earlier chunk, and for the same id on another route
+        x1 = ev(test_status="exists", test_tags=frozenset({"t"}), file_name="where", file_bytes=b"m.py:10", route_code="0")
+        x2 = ev("b", file_name="where", file_bytes=b"m.py:", route_code="0", timestamp=T2)
+        x3 = ev("b", test_status="exists", file_name="where", file_bytes=b"20", route_code="0", timestamp=T2)
+        x4 = ev(test_status="exists", file_name="where", file_bytes=b"other.py:1", route_code="1", timestamp=T2)
+        out.append([("startTestRun",), ("status", x1), ("status", x2), ("status", x3), ("status", x4), ("stopTestRun",)])
     return out
 
 
 def run_fixed(res):
     for consumer in ("StreamToDict", "StreamSummary", "StreamToExtendedDecorator"):
-        for hist in fixed_histories():
+        for hist in fixed_histories(consumer):
             sysm = System(consumer)
             impl, m = sysm.fresh()
             done = []
